@@ -6,7 +6,7 @@
 EXTENDS GCM, TLC, Json
 CONSTANTS NKeys
 VARIABLES k, done
-KeyB(i) == [j \in 1..16 |-> (i * 37 + j * 101 + j * j * (i + 3)) % 256]
+KeyB(i) == [j \in 1..16 |-> (i * 37 + j * 101 + j * j * (i + 3) + (i \div 256) * (j * 29 + 11)) % 256]
 Init == k \in 1..NKeys /\ done = FALSE
 Next == /\ ~done /\ done' = TRUE /\ k' = k
         /\ PrintT(<<"HKEY", ToJson([k |-> k, h |-> EncRK(RoundKeys(KeyB(k)), Zero16)])>>)
